@@ -111,6 +111,29 @@ def h_simple(nidx: List[int], seeds: List[int], r: int, h1: List[int], h2: List[
     return True
 
 
+def h_reuse(nidx: List[int], seeds: List[int], r1: int, r2: int) -> bool:
+    """
+    pre: len(nidx) == 2 and len(seeds) == 2
+    pre: all(0 <= n < len(NAMES) for n in nidx) and nidx[0] != nidx[1]
+    pre: 0 <= r1 <= 50 and 0 <= r2 <= 50
+    post: _
+    """
+    # ONE updater instance serves two configurations in which the same generator objects appear under
+    # swapped names; the seeds of the second configuration must equal those of a fresh updater and
+    # fresh generators (the seed depends only on name, original seed and replication number)
+    names = [NAMES[i] for i in nidx]
+    upd = SimpleStreamUpdater()
+    s0, s1 = MersenneTwister(seeds[0]), MersenneTwister(seeds[1])
+    upd.update_seeds({names[0]: s0, names[1]: s1}, r1)
+    upd.update_seeds({names[1]: s0, names[0]: s1}, r2)
+    f0, f1 = MersenneTwister(seeds[0]), MersenneTwister(seeds[1])
+    SimpleStreamUpdater().update_seeds({names[1]: f0, names[0]: f1}, r2)
+    if s0.seed() != f0.seed() or s1.seed() != f1.seed():
+        return rt.fail("C13:seed-depends-on-updater-history",
+                       lambda: f"names {names} seeds {seeds} r1={r1} r2={r2}: {s0.seed()},{s1.seed()} fresh {f0.seed()},{f1.seed()}")
+    return True
+
+
 def h_simple_refuse(ni: int, seed: int, r: int) -> bool:
     """
     pre: 0 <= ni < len(NAMES)
